@@ -203,7 +203,8 @@ func (x *Exec) applyContract(st *State, site ast.Node, key string, clauses []*Cl
 	env := &SEnv{x: x, st: st, binds: binds, pkg: pkg}
 	n := 0
 	for _, c := range clauses {
-		if c.Kind != "requires" || !c.relevant(x.prop) {
+		if c.Kind != "requires" || !c.relevant(x.prop) || c.Label == "ghost-initial-state" {
+			// the ghost state of an object that does not exist yet is empty by definition
 			continue
 		}
 		n++
